@@ -88,8 +88,9 @@ def hat1f(a, b, k, i, x):
     return t if t > 0 else 0.0
 
 
-def np_isclose(x, y):
-    return abs(x - y) <= 1e-8 + 1e-5 * abs(y)
+def near_end(x, e, a, b):
+    """the boundary test of the repaired Grid.points_not_zero for one coordinate (tolerance relative to the width)"""
+    return abs(x - e) <= 1e-12 * (b - a)
 
 
 def make_function(dim, comps):
@@ -424,8 +425,8 @@ class Runner:
             return
         gpts = list(itertools.product(*coords))
         # false-boundary classification (independent of the model): an interior sparse-grid point that
-        # np.isclose counts as lying on the boundary
-        false_bd = (not bd) and any(np_isclose(p[d], a[d]) or np_isclose(p[d], b[d]) for p in us for d in range(dim))
+        # the boundary test of points_not_zero counts as lying on the boundary (cannot happen after the repair)
+        false_bd = (not bd) and any(near_end(p[d], a[d], a[d], b[d]) or near_end(p[d], b[d], a[d], b[d]) for p in us for d in range(dim))
         tags2 = dict(tags, false_boundary=bool(false_bd))
         for j, c in enumerate(comps):
             # ---- correspondence with the model
@@ -550,7 +551,7 @@ def run_config(ctx, drv, cfg, bundles=None, far=False, nbundles=2, replaying=Non
     nmax = 250 if cfg["dim"] <= 3 else 120
     for n in range(nbundles):
         xs, coords = R.eval_points(cfg, us, nmax)
-        comps = gen_components(ctx, cfg, us, kinds=(["table", "unit"] if far else None))
+        comps = gen_components(ctx, cfg, us)   # far boxes: tables, unit functions AND hats (the boundary test is repaired)
         R.bundle(cfg, case, info, comps, xs, coords, far)
     if ctx.rng.random() < 0.3:
         R.out_of_bounds(cfg, case)
@@ -621,7 +622,7 @@ def run_nondyadic(ctx, cfg, subseed):
         # float rounding is outside the property (exact model, tolerance comparison): recorded, not a violation
         ctx.count("bitwise_non_nested_points_observed", len(badb))
     us = sorted(rep.values())
-    false_bd = (not bd) and any(np_isclose(p[d], a[d]) or np_isclose(p[d], b[d]) for p in us for d in range(dim))
+    false_bd = (not bd) and any(near_end(p[d], a[d], a[d], b[d]) or near_end(p[d], b[d], a[d], b[d]) for p in us for d in range(dim))
     tags2 = dict(tags, false_boundary=bool(false_bd))
     # one table (a function of the lattice index, hence insensitive to rounding of the coordinates) and one hat
     tab = {q: r.uniform(-3, 3) for q in sorted(coef_at)}
@@ -686,7 +687,7 @@ def run(ctx):
     ctx.rule = ("StandardCombi on TrapezoidalGrid (boundary on/off), Integration/Interpolation; dim 1-4, lmin 1-3, lmax-lmin 0-4, "
                 "dyadic boxes, function bundles of output length 1-3 whose components are random dyadic tables on the sparse grid, "
                 "sparse tables, nodal unit functions and tensor hats of a level in the index set; a few far-from-origin boxes with "
-                "boundary off (np.isclose false-boundary class); model and implementation compared on scheme, points, weights, counts, "
+                "boundary off (formerly the np.isclose false-boundary class; must satisfy every clause now); model and implementation compared on scheme, points, weights, counts, "
                 "union, coefficient sums, combined points/weights, integral, interpolant at sparse-grid and random dyadic points, "
                 "interpolate_grid, one component interpolant; plus a non-dyadic stream (arbitrary real boxes and values, oracle only, tolerance 1e-9); a case = one configuration (dim,lmin,lmax,boundary,box), non-trivial if "
                 "dim>=2 or lmax>lmin")
